@@ -308,6 +308,9 @@ func AccessPath(v ssa.Value) string {
 	case *ssa.Index:
 		return AccessPath(x.X) + "[" + AccessPath(x.Index) + "]"
 	case *ssa.Const:
+		if x.Value == nil {
+			return "nil"
+		}
 		return x.Value.String()
 	case *ssa.Call:
 		return CalleeName(x) + "()"
